@@ -451,3 +451,64 @@ impl Rotation {
         Rotation(1)
     }
 }
+
+/// Verification hook (H4), feature `verif-hooks` only (off by default).
+///
+/// The fields of [`VerifierQuery`] / [`ProverQuery`] are `pub(crate)` and
+/// `poly::query` is a private module, so an out-of-tree
+/// [`commitment::PolynomialCommitmentScheme`] cannot read the queries it is
+/// handed in `multi_open` / `multi_prepare`. This module adds read-only
+/// accessors. Add-only: nothing here is used by the library.
+#[cfg(feature = "verif-hooks")]
+pub mod verif {
+    use ff::PrimeField;
+
+    use super::{
+        commitment::PolynomialCommitmentScheme, query::CommitmentReference, Coeff,
+        CommitmentLabel, Polynomial, ProverQuery, VerifierQuery,
+    };
+
+    /// Evaluation point of a verifier query.
+    pub fn verifier_query_point<F: PrimeField, CS: PolynomialCommitmentScheme<F>>(
+        q: &VerifierQuery<'_, F, CS>,
+    ) -> F {
+        q.point
+    }
+
+    /// Claimed evaluation of a verifier query.
+    pub fn verifier_query_eval<F: PrimeField, CS: PolynomialCommitmentScheme<F>>(
+        q: &VerifierQuery<'_, F, CS>,
+    ) -> F {
+        q.eval
+    }
+
+    /// Label of a verifier query.
+    pub fn verifier_query_label<F: PrimeField, CS: PolynomialCommitmentScheme<F>>(
+        q: &VerifierQuery<'_, F, CS>,
+    ) -> CommitmentLabel {
+        q.commitment_label.clone()
+    }
+
+    /// Commitment pieces of a verifier query (one element for a one-piece
+    /// commitment) and the piece degree `n` of a chopped commitment.
+    pub fn verifier_query_commitments<'com, F: PrimeField, CS: PolynomialCommitmentScheme<F>>(
+        q: &VerifierQuery<'com, F, CS>,
+    ) -> (Vec<&'com CS::Commitment>, Option<u64>) {
+        match &q.commitment {
+            CommitmentReference::OnePiece(c) => (vec![*c], None),
+            CommitmentReference::Chopped(parts, n) => (parts.clone(), Some(*n)),
+        }
+    }
+
+    /// Evaluation point of a prover query.
+    pub fn prover_query_point<F: PrimeField>(q: &ProverQuery<'_, F>) -> F {
+        q.point
+    }
+
+    /// Polynomial of a prover query.
+    pub fn prover_query_poly<'com, F: PrimeField>(
+        q: &ProverQuery<'com, F>,
+    ) -> &'com Polynomial<F, Coeff> {
+        q.poly
+    }
+}
